@@ -390,6 +390,8 @@ class Check:
                 json.dump(rec, fh, indent=1, default=str)
             print("VIOLATION property=%s replay=%s" % (self.pid, path), flush=True)
             log("  key=%s %s" % (key, what))
+        elif os.environ.get("VERIF_ALLKEYS"):
+            log("  key=%s %s" % (key, what[:300]))
         self.violations.append({"key": key, "what": what, "path": path})
         return True
 
